@@ -5,7 +5,7 @@
 From Coq Require Import List Arith Bool.
 Import ListNotations.
 From C17 Require Import Sem Progs Static Annot FutRaw.
-From C17 Require Exec ExecLive Ss FutCopy0.
+From C17 Require Exec ExecLive Ss FutCopy0 Per.
 
 (* Data-race freedom of the model: whenever a thread is about to execute an instruction that reads
    or writes a shared variable or the callback queue, it owns the mutex that protects it
@@ -174,3 +174,28 @@ Theorem c17_future_two_holders : forall s, reach P (init_fut_copy 0) s ->
   (forall t k v, In (t, k, v) (outs s) -> k = OUT_GET -> v = THE_VALUE /\ var s ISSET = 1).
 Proof. exact FutCopy0.fut_two_holders_safe. Qed.
 Print Assumptions c17_future_two_holders.
+
+(* ---- PeriodicThread (scenario init_periodic: thread 0 constructs a PeriodicThread - the constructor calls
+   Thread::Start - and then calls Stop(); thread 1 is the periodic thread: Thread::_InternalRun, then
+   PeriodicThread::Run = callback, then lock / test m_terminate / TimedWait / re-test / unlock / callback ...).
+   A timed wait may time out at ANY moment (a step of the sleeping thread), spurious wake-ups are possible,
+   all interleavings.  outs = the callback runs.
+   1. no hazard is reachable, and from ANY reachable state in which Stop() has set m_terminate, in every
+      continuation of every schedule the callback runs at most once more (m_terminate stays set). *)
+Theorem c17_periodic_stop : forall s, reach P init_periodic s ->
+  fault s = None /\
+  (var s TERM = 1 -> forall s2, reach P s s2 -> var s2 TERM = 1 /\ length (outs s2) <= length (outs s) + 1).
+Proof.
+  intros s R. split; [exact (proj1 (Per.periodic_safe s R))|].
+  intros T s2 R2. exact (Per.periodic_stop_bound s R T s2 R2).
+Qed.
+Print Assumptions c17_periodic_stop.
+
+(* 2. no lost wake-up: in every reachable state in which Stop() has not returned, some thread can take a real
+      step - a step of a thread that is NOT asleep, i.e. not merely a time-out of the timed wait.  So there is no
+      reachable state where Stop is blocked (e.g. in join) while the periodic thread can only loop on time-outs
+      or every thread is blocked. *)
+Theorem c17_periodic_no_deadlock : forall s, reach P init_periodic s -> stat (thr s 0) <> Done ->
+  exists t pick s', PerInv.is_asleep (stat (thr s t)) = false /\ exec P s (LStep t pick) = Some s'.
+Proof. exact Per.periodic_no_deadlock. Qed.
+Print Assumptions c17_periodic_no_deadlock.
